@@ -189,6 +189,31 @@ def run(report: Report, tier, seed):
     report.ob(Ob(id="O19.4/set-accepts-implies-same-layout", function="pyteal.abi.<every value class>.set(other ABI value)", kind="E",
                  status="discharged" if not set_bad and nacc > 0 else ("refuted" if set_bad else "unknown"), backend=f"enumeration({len(abiU)}^2 ordered pairs, exhaustive over the universe)",
                  detail=f"for all ordered pairs (a, b), b not a tuple (Tuple.set takes elements): b.new_instance().set(a.new_instance()) is rejected unless layout(a) == layout(b); {nacc} of {nset} accepted", model=set_bad[:5] or None))
+    # O19.5: element access is an assignment too - x[i].store_into(out) hands the element's bytes to `out`
+    el_bad, nel, nel_acc = [], 0, 0
+    outs = [t for t in abiU if not isinstance(t, abi.TupleTypeSpec)][:60] + [t for t in abiU if isinstance(t, abi.TupleTypeSpec)][:12]
+    for cont in abiU:
+        if isinstance(cont, (abi.StaticArrayTypeSpec, abi.DynamicArrayTypeSpec)):
+            elems = [(0, cont.value_type_spec()), (pt.Int(0), cont.value_type_spec())]
+        elif isinstance(cont, abi.TupleTypeSpec) and cont.length_static() > 0:
+            elems = [(i, e) for i, e in enumerate(cont.value_type_specs())]
+        else:
+            continue
+        for idx, ets in elems:
+            for b in outs:
+                nel += 1
+                try:
+                    e = cont.new_instance()[idx].store_into(b.new_instance())
+                except Exception:
+                    continue
+                if not isinstance(e, pt.Expr):
+                    continue
+                nel_acc += 1
+                if not accepts(ets, b):
+                    el_bad.append((str(cont), str(b), f"{cont}[{idx if isinstance(idx, int) else 'Int(0)'}].store_into({b} value) is accepted: element layout {layout(ets)[1]} vs {layout(b)[1]}"))
+    report.ob(Ob(id="O19.5/element-store-into-accepts-implies-same-layout", function="pyteal.abi ArrayElement.store_into / TupleElement.store_into", kind="E",
+                 status="discharged" if not el_bad and nel_acc > 0 else ("refuted" if el_bad else "unknown"), backend=f"enumeration({nel} (container, index kind, output type) triples over the universe)",
+                 detail=f"x[i].store_into(out) (constant and computed index, tuple members) is rejected unless layout(element) == layout(out); {nel_acc} accepted", model=el_bad[:5] or None))
     # call sites reject non-assignable arguments (O19.2)
     mism = [(a, b) for a, b in itertools.product(U[:40], U[:40]) if layout(a)[0] == "abi" and layout(b)[0] == "abi" and not accepts(a, b)]
     r.shuffle(mism)
@@ -237,6 +262,8 @@ def run(report: Report, tier, seed):
         report.violation(Violation(key=f"route:{s_t}:{rn}", what=f"type spec of {s_t} via {rn}: {why}", obligation="O19.3/type-spec-routes-agree", replay={"type": s_t, "route": rn, "why": why}, confirmed_native=True))
     for a, b, why in set_bad[:3]:
         report.violation(Violation(key=f"set:{a}->{b}", what=f"{b}.set({a} value): {why}", obligation="O19.4/set-accepts-implies-same-layout", replay={"set": [a, b], "why": why}, confirmed_native=True))
+    for a, b, why in el_bad[:3]:
+        report.violation(Violation(key=f"element:{a}->{b}", what=why[:400], obligation="O19.5/element-store-into-accepts-implies-same-layout", replay={"element": [a, b], "why": why}, confirmed_native=True))
     for a, b, why in site_bad[:2]:
         report.violation(Violation(key=f"callsite:{a}->{b}", what=f"{a} passed where {b} expected: {why}", replay={"a": a, "b": b}, confirmed_native=True))
 
